@@ -1,4 +1,240 @@
-import Cjet.Basic
+/-
+  Driver for component `cjson`: answers the script protocol of harness/comp/cjson.c from the model
+  Cjet.Cjson.  One observation line per op:
+
+    p <hex>         `ok <end> <tree>` | `FAIL <error position>` | `OOB <offset>` | `NOFUEL`
+                    (parse = cJSON_ParseWithLengthOpts(buf, len, &end, 0), guard flag from the tree)
+    s <off> <hex>   parse_string alone: `ok <new offset> alloc=<n> raw=<hex>` | `FAIL <new offset>` | `OOB <i>`
+    w <tree>        cJSON_PrintUnformatted: `ok <hex>` (a number prints its token text) | `FAIL`
+    parse <hex>     the parsed value in the token encoding of Cjet.Json (`Json.encode`: n t f
+                    d<bits>:<valueint> s<hex> a<k> … o<k> <key> …), or `none` when cJSON returns NULL
+                    (an over-read answers `oob <i>`): raw, lenient texts for the daemon model with
+                    cJSON's semantics
+    num <hex>       the double (bits, valueint) this driver computes for a number token: `ok <bits>:<valueint>`
+
+  <tree> (prefix form):  n | t | f | N<token hex>:<bits hex> | s<hex> | a<k> item*k | o<k> (<key hex> value)*k.
+  Option `--guard 0|1` overrides the object-comma guard flag (default: Generated.Cjson.objCommaGuard).
+
+  The double of a number token is NOT part of the model (strtod is an oracle there); the driver
+  computes it with exact integer arithmetic (`decToBits`, round to nearest even) so that the dump
+  can be compared with the implementation's bit for bit and `parse` can feed the daemon model.
+-/
+import Cjet.Cjson
+import Cjet.Json
+
 namespace Cjet.Drv.Cjson
-def run (_args : List String) : IO UInt32 := pure 0
+open Cjet Cjet.Cjson
+
+/-! ### decimal token → IEEE-754 double, exactly (driver only) -/
+
+def natLog2 (n : Nat) : Nat := if n = 0 then 0 else Nat.log2 n
+
+/-- round-half-even quotient of `num / den` -/
+def divRound (num den : Nat) : Nat :=
+  let q := num / den
+  let r := num % den
+  if 2 * r > den then q + 1 else if 2 * r < den then q else if q % 2 = 1 then q + 1 else q
+
+/-- the scaled quotient `num / den / 2^k`, rounded half-even -/
+def scaled (num den : Nat) (k : Int) : Nat :=
+  if k ≥ 0 then divRound num (den <<< k.toNat) else divRound (num <<< (-k).toNat) den
+
+def scaledFloor (num den : Nat) (k : Int) : Nat :=
+  if k ≥ 0 then num / (den <<< k.toNat) else (num <<< (-k).toNat) / den
+
+/-- magnitude bits (without sign) of `m * 10^e10`, correctly rounded -/
+def magBits (m : Nat) (e10 : Int) : Nat :=
+  let inf : Nat := 0x7FF0000000000000
+  if m = 0 then 0
+  else if e10 > 400 then inf
+  else if e10 < -500 then 0
+  else
+    let num := if e10 ≥ 0 then m * 10 ^ e10.toNat else m
+    let den := if e10 ≥ 0 then 1 else 10 ^ (-e10).toNat
+    -- k with 2^52 ≤ floor(v / 2^k) < 2^53
+    let k0 : Int := (natLog2 num : Int) - (natLog2 den : Int) - 52
+    let q0 := scaledFloor num den k0
+    let k1 : Int := if q0 ≥ 2 ^ 53 then k0 + 1 else if q0 < 2 ^ 52 then k0 - 1 else k0
+    let k : Int := if k1 < -1074 then -1074 else k1
+    let q := scaled num den k
+    -- rounding may carry into the next binade
+    let (q, k) := if q ≥ 2 ^ 53 then (q / 2, k + 1) else (q, k)
+    if q < 2 ^ 52 then q                                -- subnormal (k = -1074) or zero
+    else
+      let e : Int := k + 52 + 1023
+      if e ≥ 2047 then inf else e.toNat * 2 ^ 52 + (q - 2 ^ 52)
+
+def digitsVal (s : Bytes) : Nat := s.foldl (fun a c => a * 10 + (c.toNat - 0x30)) 0
+
+structure Dbl where
+  bits : UInt64
+  vint : Int
+
+/-- bits and valueint for a complete number token (as consumed by strtod) -/
+def tokDouble (tok : Bytes) : Dbl :=
+  let sg := signLen tok
+  let neg := match tok with | c :: _ => c == 0x2D | [] => false
+  let s1 := tok.drop sg
+  let n1 := digitsLen s1
+  let ip := s1.take n1
+  let s2 := s1.drop n1
+  let (fp, s3) := match s2 with
+    | c :: r => if c = 0x2E then (r.take (digitsLen r), r.drop (digitsLen r)) else ([], s2)
+    | [] => ([], [])
+  let ex : Int := match s3 with
+    | c :: r =>
+      if c = 0x65 ∨ c = 0x45 then
+        let sl := signLen r
+        let eneg := match r with | d :: _ => d == 0x2D | [] => false
+        let ds := (r.drop sl).take (digitsLen (r.drop sl))
+        -- clamp huge exponents (the value is 0 or inf long before)
+        let v : Nat := if ds.length > 6 then 1000000 else digitsVal ds
+        if eneg then -(v : Int) else (v : Int)
+      else 0
+    | [] => 0
+  let m := digitsVal (ip ++ fp)
+  let e10 : Int := ex - (fp.length : Int)
+  let mag := magBits m e10
+  let bits : Nat := if neg then mag + 2 ^ 63 else mag
+  -- valueint: saturating truncation of the double
+  let efield : Nat := mag / 2 ^ 52
+  let frac : Nat := mag % 2 ^ 52
+  let vmag : Nat :=
+    if efield = 2047 then 2 ^ 40        -- inf (strtod never yields NaN here)
+    else if efield = 0 then 0
+    else
+      let q : Nat := 2 ^ 52 + frac
+      let k : Int := (efield : Int) - 1075
+      if k ≥ 0 then (if k > 20 then 2 ^ 40 else q <<< k.toNat) else q >>> (-k).toNat
+  let vint : Int :=
+    if neg then (if vmag ≥ 2147483648 then -2147483648 else -(vmag : Int))
+    else (if vmag ≥ 2147483647 then 2147483647 else (vmag : Int))
+  { bits := UInt64.ofNat bits, vint := vint }
+
+def natToHex (n : Nat) : String := Json.natToHex n
+
+/-! ### tree dump / reader -/
+
+partial def dump : Tree → List String
+  | .null => ["n"]
+  | .fls => ["f"]
+  | .tru => ["t"]
+  | .num tok => [s!"N{Hex.ofBytes tok}:{natToHex (tokDouble tok).bits.toNat}"]
+  | .str s => ["s" ++ Hex.ofBytes s]
+  | .arr l => s!"a{l.length}" :: (l.map dump).flatten
+  | .obj l => s!"o{l.length}" :: (l.map (fun (k, v) => Hex.ofBytes k :: dump v)).flatten
+
+partial def toJson : Tree → Json
+  | .null => .null
+  | .fls => .bool false
+  | .tru => .bool true
+  | .num tok => let d := tokDouble tok; .num { bits := d.bits, vint := d.vint }
+  | .str s => .str s
+  | .arr l => .arr (l.map toJson)
+  | .obj l => .obj (l.map (fun (k, v) => (k, toJson v)))
+
+partial def readTree : List String → Option (Tree × List String)
+  | [] => none
+  | tok :: rest =>
+    match tok.toList with
+    | ['n'] => some (.null, rest)
+    | ['t'] => some (.tru, rest)
+    | ['f'] => some (.fls, rest)
+    | 'N' :: cs =>
+      match (String.ofList cs).splitOn ":" with
+      | h :: _ => (Hex.toBytes? h).map (fun b => (.num b, rest))
+      | [] => none
+    | 's' :: cs => (Hex.toBytes? (String.ofList cs)).map (fun b => (.str b, rest))
+    | 'a' :: cs =>
+      match (String.ofList cs).toNat? with
+      | none => none
+      | some n =>
+        let rec items (k : Nat) (toks : List String) (acc : List Tree) : Option (List Tree × List String) :=
+          match k with
+          | 0 => some (acc.reverse, toks)
+          | k + 1 =>
+            match readTree toks with
+            | some (j, toks') => items k toks' (j :: acc)
+            | none => none
+        (items n rest []).map (fun (l, r) => (.arr l, r))
+    | 'o' :: cs =>
+      match (String.ofList cs).toNat? with
+      | none => none
+      | some n =>
+        let rec members (k : Nat) (toks : List String) (acc : List (Bytes × Tree)) :
+            Option (List (Bytes × Tree) × List String) :=
+          match k with
+          | 0 => some (acc.reverse, toks)
+          | k + 1 =>
+            match toks with
+            | [] => none
+            | kt :: toks1 =>
+              match Hex.toBytes? kt, readTree toks1 with
+              | some kb, some (j, toks') => members k toks' ((kb, j) :: acc)
+              | _, _ => none
+        (members n rest []).map (fun (l, r) => (.obj l, r))
+    | _ => none
+
+/-! ### ops -/
+
+def opParse (guard : Bool) (h : String) : String :=
+  match Hex.toBytes? h with
+  | none => "error hex"
+  | some inp =>
+    match parseG guard inp with
+    | .ok t e => s!"ok {e} " ++ " ".intercalate (dump t)
+    | .fail p => s!"FAIL {p}"
+    | .oob i => s!"OOB {i}"
+    | .nofuel => "NOFUEL"
+
+def opParseJson (guard : Bool) (h : String) : String :=
+  match Hex.toBytes? h with
+  | none => "error hex"
+  | some inp =>
+    match parseG guard inp with
+    | .ok t _ => Json.render (toJson t)
+    | .fail _ => "none"
+    | .oob i => s!"oob {i}"
+    | .nofuel => "nofuel"
+
+def opString (off : String) (h : String) : String :=
+  match off.toNat?, Hex.toBytes? h with
+  | some o, some inp =>
+    match parseString inp ⟨o, 0⟩ with
+    | .ok s b => s!"ok {b.off} alloc={s.alloc} raw={Hex.ofBytes s.written}"
+    | .fail b => s!"FAIL {b.off}"
+    | .oob i => s!"OOB {i}"
+    | .nofuel => "NOFUEL"
+  | _, _ => "error args"
+
+def opPrint (toks : List String) : String :=
+  match readTree toks with
+  | some (t, []) => "ok " ++ Hex.ofBytes (printValue id t)
+  | _ => "FAIL"
+
+def opNum (h : String) : String :=
+  match Hex.toBytes? h with
+  | some tok => let d := tokDouble tok; s!"ok {natToHex d.bits.toNat}:{d.vint}"
+  | none => "error hex"
+
+def step (guard : Bool) (_ : Unit) (line : String) : Unit × List String :=
+  match words line with
+  | ["p", h] => ((), [opParse guard h])
+  | ["p"] => ((), [opParse guard "-"])
+  | ["parse", h] => ((), [opParseJson guard h])
+  | ["s", o, h] => ((), [opString o h])
+  | "w" :: toks => ((), [opPrint toks])
+  | ["num", h] => ((), [opNum h])
+  | [] => ((), ["-"])
+  | _ => ((), ["error op"])
+
+def guardOf : List String → Bool
+  | "--guard" :: v :: _ => v != "0"
+  | _ :: rest => guardOf rest
+  | [] => Cjet.Generated.Cjson.objCommaGuard
+
+def run (args : List String) : IO UInt32 := do
+  runLines (step (guardOf args)) ()
+  pure 0
+
 end Cjet.Drv.Cjson
